@@ -1,14 +1,22 @@
 #include <cstddef>
-#include "extracted.hpp"
+#ifdef VX_KEY2
+#include "extracted_key2.hpp"
+#else
+#include "extracted_int.hpp"
+#endif
 using namespace souffle::detail;
 extern "C" {
-int h_comparator(int a, int b, int which) {
-    comparator<int> c;
+#ifdef VX_KEY2
+bool vx_lt(const void* a, const void* b) { return *(const VX_ELT*)a < *(const VX_ELT*)b; }
+bool vx_eq(const void* a, const void* b) { return *(const VX_ELT*)a == *(const VX_ELT*)b; }
+#endif
+int h_comparator(const void* pa, const void* pb, int which) {
+    comparator<VX_ELT> c; VX_ELT a = *(const VX_ELT*)pa, b = *(const VX_ELT*)pb;
     if (which == 0) return c(a, b);
     if (which == 1) return c.less(a, b) ? 1 : 0;
     return c.equal(a, b) ? 1 : 0;
 }
-#define W(S, F) const int* h_##S##__##F(const int* k, const int* a, const int* b) { vx_comp_int comp; return S##__##F(*k, a, b, comp); }
+#define W(S, F) const void* h_##S##__##F(const void* k, const void* a, const void* b) { VX_COMP comp; return S##__##F(*(const VX_ELT*)k, (const VX_ELT*)a, (const VX_ELT*)b, comp); }
 W(linear_search, lower_bound) W(linear_search, upper_bound) W(linear_search, call)
 W(binary_search, lower_bound) W(binary_search, upper_bound) W(binary_search, call)
 }
